@@ -109,6 +109,15 @@ type lockIssue struct {
 // checkLockPairing analyses fn; handoff lists mutex keys that fn legitimately
 // returns holding (released by a goroutine it started).
 func checkLockPairing(l *Loaded, fn *ssa.Function, handoff map[string]bool) (keys []string, issues []lockIssue) {
+	keys, issues, _ = checkLockPairingQ(l, fn, handoff)
+	return
+}
+
+// lockQuery reports the abstract state of mutex key k right before instruction at.
+type lockQuery func(at ssa.Instruction, k string) lkState
+
+func checkLockPairingQ(l *Loaded, fn *ssa.Function, handoff map[string]bool) (keys []string, issues []lockIssue, q lockQuery) {
+	q = func(ssa.Instruction, string) lkState { return lkFree }
 	keyset := map[string]bool{}
 	allInstrs(fn, func(in ssa.Instruction) {
 		if cc := callCommon(in); cc != nil {
@@ -118,7 +127,7 @@ func checkLockPairing(l *Loaded, fn *ssa.Function, handoff map[string]bool) (key
 		}
 	})
 	if len(keyset) == 0 {
-		return nil, nil
+		return nil, nil, q
 	}
 	for k := range keyset {
 		keys = append(keys, k)
@@ -220,7 +229,30 @@ func checkLockPairing(l *Loaded, fn *ssa.Function, handoff map[string]bool) (key
 			transfer(b, s, true)
 		}
 	}
-	return keys, issues
+	q = func(at ssa.Instruction, k string) lkState {
+		b := at.Block()
+		s, ok := in[b]
+		if !ok {
+			return lkBottom
+		}
+		s = s.clone()
+		for _, x := range b.Instrs {
+			if x == at {
+				break
+			}
+			if call, isCall := x.(*ssa.Call); isCall {
+				if op, ok := lockOpOf(&call.Call); ok {
+					if op.lock {
+						s.st[op.key] = lkHeld
+					} else {
+						s.st[op.key] = lkFree
+					}
+				}
+			}
+		}
+		return s.st[k]
+	}
+	return keys, issues, q
 }
 
 // runLockPairing adds one obligation per (function, mutex) in scope.
